@@ -273,6 +273,19 @@ def run(ctx: Context) -> None:
                 continue
             if isinstance(n, ast.Continue) and in_inner and any(t.endswith(' in dimension_masks') and not pol for t, pol in fs):
                 continue
+            # a `continue` that ends a branch in which the variable has just been written and listed skips nothing
+            if isinstance(n, ast.Continue) and not in_inner:
+                done_first = False
+                for holder in ast.walk(lp):
+                    for fld in ('body', 'orelse'):
+                        seq = getattr(holder, fld, None)
+                        if isinstance(seq, list) and any(x is n for x in seq):
+                            before = seq[:[x is n for x in seq].index(True)]
+                            wrote = any(isinstance(c, ast.Call) and isinstance(c.func, ast.Attribute) and c.func.attr == 'to_netcdf' for b in before for c in ast.walk(b))
+                            listed = any(isinstance(c, ast.Call) and isinstance(c.func, ast.Attribute) and c.func.attr == 'append' for b in before for c in ast.walk(b))
+                            done_first = wrote and listed
+                if done_first:
+                    continue
             bad_exits.append(n)
         ctx.check('R08.4', not bad_exits, "no other exit skips a variable (only a topology variable is passed over, and in the axis loop only an axis without a row mask)", ac,
                   bad_exits[0] if bad_exits else lp, construct=f"early exits in the loop: {len(conts)}, unexplained: {len(bad_exits)}")
